@@ -17,7 +17,7 @@ RULE = ('case = (record lengths, content class, blocked?, writer API, reader API
 ASSUMPTIONS = ['vmon/ref/blocking.py', 'io.BytesIO', 'records are non-empty and at most MAX_VBS_RECORD_LENGTH (6000) bytes']
 CONTENTS = ('coded', 'zeros', 'fill', 'term_head', 'term_tail', 'pad_head', 'pad_tail', 'random')
 WRITE_APIS = ('class_close', 'with', 'write_many', 'conv', 'with_close')
-READ_APIS = ('class', 'conv', 'next_then_for', 'for_break_for', 'list_twice')
+READ_APIS = ('class', 'conv', 'next_then_for', 'for_break_for', 'list_twice', 'second_reader_after_rewind')
 _CODED = coded(10200)
 
 
@@ -69,7 +69,7 @@ def cases(ctx):
                         lens = [first, 7, 1012 - 11 - 4, 3]
                         if first >= 1:
                             yield {'kind': 'list', 'lens': lens, 'content': cls, 'blocked': blocked,
-                                   'wapi': WRITE_APIS[(k + d) % len(WRITE_APIS)], 'rapi': READ_APIS[(k + d) % 5]}
+                                   'wapi': WRITE_APIS[(k + d) % len(WRITE_APIS)], 'rapi': READ_APIS[(k + d) % len(READ_APIS)]}
                     i += 1
     # unblocked files that look blocked: fill bytes exactly where a 1014-blocked file has its trailers
     for lens in ([2496], [2497], [3000], [5996], [600] * 5, [1008, 1010, 1010], [1008, 1010, 2000, 30]):
@@ -166,6 +166,17 @@ def read_file(ctx, data, blocked, rapi):
                 for rec in r:
                     out.append(rec)
             return out
+        if rapi == 'second_reader_after_rewind':
+            # count first, then read: a reader that took part (or all) of the file, the file rewound, a new reader on the
+            # same file object - the second one starts from the beginning with nothing left over from the first
+            f = io.BytesIO(data)
+            r1 = m.VbsReader(f, blocked=blocked)
+            if len(data) % 2:
+                sum(1 for _ in r1)
+            else:
+                next(r1, None)
+            f.seek(0)
+            return list(m.VbsReader(f, blocked=blocked))
         if rapi == 'list_twice':
             first = list(r)
             if not blocked:
